@@ -441,6 +441,9 @@ def run(ck, prog, ctx):
             ck.undecided("FIELD", nm + "/new-index", "insert into the distance matrix / push onto `sets` not recognised", where=host.where())
             continue
         for bi, t in ins:
+            if t.args[1].place is not None and t.args[1].place.is_local() and not str(host.locals[t.args[1].place.local].get("s", "")).startswith("("):
+                ck.undecided("FIELD", nm + "/new-key-order", "%s keys the new distance with a private key type (%s), not a plain (smaller, larger) tuple: which component is which is that type's business" % (nm, host.locals[t.args[1].place.local].get("s")), where=host.where(t.line))
+                continue
             c0 = pvm.of_operand(host, t.args[1], (("f", "0", "tuple"),))
             c1 = pvm.of_operand(host, t.args[1], (("f", "1", "tuple"),))
             k0, k1 = comp_in(host, c0), comp_in(host, c1)
